@@ -132,11 +132,20 @@ def _inline_attr_aliases(v: FuncInfo, flow, t: ast.expr, at):
                     return copy.deepcopy(ds[0].value)
             return n
 
-        def visit_GeneratorExp(self, n):
-            return n
+        def _comp(self, n):
+            bound = {x.id for g in n.generators for x in ast.walk(g.target) if isinstance(x, ast.Name)}
+            outer = self
 
-        def visit_ListComp(self, n):
-            return n
+            class U(ast.NodeTransformer):
+                def visit_Name(self, m):
+                    if m.id in bound:
+                        return m
+                    return outer.visit_Name(m)
+
+            return U().visit(n)
+
+        visit_GeneratorExp = _comp
+        visit_ListComp = _comp
 
     return T().visit(copy.deepcopy(t))
 
